@@ -88,6 +88,18 @@ type hEndpoint struct {
 	Fields    hFields `json:"fields"`
 	URL       hFields `json:"url"`
 	MayChange strList `json:"maychange"`
+	FollowUps strList `json:"followups"`
+}
+
+// world returns the kind of world the row runs in.
+func (ep *hEndpoint) world() string {
+	switch {
+	case ep.Flags.has("wvox"):
+		return "vox"
+	case ep.Flags.has("wleg"):
+		return "leg"
+	}
+	return "main"
 }
 
 type hCase struct {
@@ -98,6 +110,7 @@ type hCase struct {
 	Expect    string  `json:"expect"`
 	Allowed   strList `json:"allowed"`
 	MayChange strList `json:"maychange"`
+	Mutating  bool    `json:"mutating"`
 }
 
 type hTable struct {
@@ -108,7 +121,7 @@ type hTable struct {
 }
 
 const c20Cfg = `SPECIFICATION Spec
-INVARIANTS TypeOK Inv_C20_Alive Inv_C20_NoServerError Inv_C20_MalformedRejected Inv_C20_Harmless Inv_C20_ReadOnlyHarmless Emit
+INVARIANTS TypeOK Inv_C20_Alive Inv_C20_NoServerError Inv_C20_MalformedRejected Inv_C20_Harmless Inv_C20_ReadOnlyHarmless Inv_C20_FollowUps Emit
 CHECK_DEADLOCK FALSE
 `
 
@@ -234,6 +247,7 @@ func c20Instantiate(ep *hEndpoint, impl *c20EP, cs *hCase, w *c20World, rng *ran
 				m.Target = fs[cs.Pos-1]
 				in.FieldName, in.FieldKind = m.Target.Name, m.Target.Kind
 				ff := ep.Fields[cs.Pos-1].F
+				m.Flags, m.World, m.Self = ff, w, strings.SplitN(ep.Name, ".", 2)[0]
 				if ff.has("u64") {
 					m.Dom = "u64"
 				} else if ff.has("i32") {
@@ -248,6 +262,17 @@ func c20Instantiate(ep *hEndpoint, impl *c20EP, cs *hCase, w *c20World, rng *ran
 		} else {
 			return in, false
 		}
+	case "geom":
+		body, note := c20GeomStream(cs.Cls, mrng, variant)
+		in.Req.Body, in.Note, in.Changed = body, note, true
+	case "req":
+		in.Req.URL = impl.url(w, params)
+		rq, note, ok := c20ReqMutate(w, in.Req, cs.Cls)
+		if !ok {
+			return in, false
+		}
+		in.Req, in.Note, in.Changed = rq, note, true
+		return in, true
 	}
 	in.Req.URL = impl.url(w, params)
 	return in, in.Changed
@@ -273,6 +298,15 @@ type c20Obs struct {
 	HeapInuseMB int     `json:"heap_inuse_mb,omitempty"`
 	HeapSysMB  int      `json:"heap_sys_mb,omitempty"`
 	Parked     string   `json:"busy_goroutine,omitempty"`
+	// growth round
+	Wedged     string   `json:"wedged_goroutine,omitempty"`     // request work still running long after the answer
+	BgPanic    string   `json:"background_panic,omitempty"`     // a panic report on stderr outside the request's recover handler
+	StrayPanic string   `json:"stray_panic,omitempty"`          // a background panic report printed before this request was sent
+	Leak       string   `json:"goroutine_leak,omitempty"`       // every repetition of the request leaves goroutines behind
+	FollowErrs []string `json:"followups_5xx,omitempty"`        // well-formed follow-up requests answered with a server error
+	FollowSent int      `json:"followups_sent,omitempty"`
+	PanicIn2xx string   `json:"panic_inside_2xx_body,omitempty"`
+	mark       int64    // position in the node's stderr before the request (deferred comparison)
 }
 
 // kinds returns the ways in which the observation leaves what the specification allows.
@@ -288,6 +322,8 @@ func (o *c20Obs) kinds(cs *hCase) []string {
 		return ks
 	}
 	switch {
+	case o.Status == 503 && strings.Contains(o.Resp, "throttled operations"):
+		// the documented refusal of a throttled request when the server is at its limit
 	case o.Status >= 500:
 		ks = append(ks, "server-error")
 	case o.Status >= 200 && o.Status < 300:
@@ -310,6 +346,21 @@ func (o *c20Obs) kinds(cs *hCase) []string {
 	}
 	if len(o.LaterErrs) > 0 {
 		ks = append(ks, "later-read-5xx")
+	}
+	if o.Wedged != "" {
+		ks = append(ks, "wedged")
+	}
+	if o.BgPanic != "" {
+		ks = append(ks, "background-panic")
+	}
+	if o.StrayPanic != "" {
+		ks = append(ks, "stray-background-panic")
+	}
+	if o.Leak != "" {
+		ks = append(ks, "goroutine-leak")
+	}
+	if len(o.FollowErrs) > 0 {
+		ks = append(ks, "followup-5xx")
 	}
 	return ks
 }
@@ -347,48 +398,107 @@ func c20Run(w *c20World, req c20Req, mayChange []string) (o c20Obs) {
 	return c20RunOpt(w, req, mayChange, true)
 }
 
-// c20RunOpt: with snapshot=false the differential snapshot is left to the caller (requests that
-// name nothing are compared in windows, see the worker loop).
-func c20RunOpt(w *c20World, req c20Req, mayChange []string, snapshot bool) (o c20Obs) {
-	n := w.n
-	before := w.cur
+var c20LeakProbes, c20FollowNanos int64
+
+// c20Send delivers one request through the node's c20.http call.
+func c20Send(w *c20World, req c20Req, timeout time.Duration) (status int, body []byte, notSent string, err error) {
 	var r struct {
 		Status int    `json:"status"`
 		Body   string `json:"body"`
 		Err    string `json:"err"`
 	}
-	{
-		rd := map[string]string{"method": req.Method, "url": req.URL}
-		if len(req.Body) > 0 {
-			rd["body"] = base64.StdEncoding.EncodeToString(req.Body)
-		}
-		args, _ := json.Marshal(rd)
-		resp, err := n.DoTimeout(node.Req{Op: "call", Fn: "c20.http", Args: args}, w.timeout)
-		w.nreq++
-		if err == nil && resp.Err != "" {
-			err = fmt.Errorf("c20.http: %s", resp.Err)
-		}
-		if err == nil {
-			err = json.Unmarshal(resp.Result, &r)
-		}
-		if err != nil {
-			if errors.Is(err, node.ErrDead) {
-				o.Dead = true
-			} else {
-				o.Hang = true
-				o.Resp = err.Error()
-			}
-			o.Stderr = c20DeathReport(n)
-			return
-		}
+	rd := map[string]string{"method": req.Method, "url": req.URL}
+	if len(req.Body) > 0 {
+		rd["body"] = base64.StdEncoding.EncodeToString(req.Body)
+	}
+	args, _ := json.Marshal(rd)
+	resp, err := w.n.DoTimeout(node.Req{Op: "call", Fn: "c20.http", Args: args}, timeout)
+	w.nreq++
+	if err == nil && resp.Err != "" {
+		err = fmt.Errorf("c20.http: %s", resp.Err)
+	}
+	if err == nil {
+		err = json.Unmarshal(resp.Result, &r)
+	}
+	if err != nil {
+		return 0, nil, "", err
+	}
+	rb, _ := base64.StdEncoding.DecodeString(r.Body)
+	return r.Status, rb, r.Err, nil
+}
+
+type c20Settled struct {
+	Busy       int    `json:"busy"`
+	Goroutines int    `json:"goroutines"`
+	Settled    bool   `json:"settled"`
+	Sample     string `json:"sample"`
+	HeapInuse  int    `json:"heap_inuse_mb"`
+	HeapSys    int    `json:"heap_sys_mb"`
+	AllBlocked bool   `json:"all_blocked"`
+	BusyIDs    string `json:"busy_ids"`
+}
+
+// c20Idle waits (at most 30 s) until no instance has pending sync events or a running update.
+func c20Idle(n *node.Node) error {
+	r, err := n.Do(node.Req{Op: "idle", WaitMS: 30000})
+	if err != nil {
+		return err
 	}
 	if r.Err != "" {
-		o.NotSent = r.Err
-		return
+		return errors.New(r.Err)
 	}
-	o.Status = r.Status
-	rb, _ := base64.StdEncoding.DecodeString(r.Body)
-	o.Resp = truncStr(string(rb), 600)
+	return nil
+}
+
+// c20Quiesce waits for idle and for the goroutines a request left behind.  Request work that is
+// still going on 3 s after the answer is either making progress (running, runnable, in I/O: a
+// legitimately expensive request, e.g. the index of a volume of random labels - it is left to
+// finish in the background, as before) or it is blocked: every goroutine of it waits for a lock or
+// a wait group.  Blocked work is given another 15 s; the same goroutines still blocked after that
+// are wedged.
+func c20Quiesce(w *c20World, o *c20Obs) (st c20Settled, dead bool, err error) {
+	n := w.n
+	if e := c20Idle(n); e != nil {
+		if errors.Is(e, node.ErrDead) {
+			return st, true, nil
+		}
+		o.NotIdle = e.Error()
+	}
+	if e := n.Call("c20.settle", map[string]int{"wait_ms": 3000}, &st); e != nil {
+		if errors.Is(e, node.ErrDead) {
+			return st, true, nil
+		}
+		return st, false, e
+	}
+	if st.Settled {
+		return st, false, nil
+	}
+	o.Parked = truncStr(st.Sample, 800)
+	if !st.AllBlocked {
+		return st, false, nil
+	}
+	first := st.BusyIDs
+	if e := n.Call("c20.settle", map[string]int{"wait_ms": 15000}, &st); e != nil {
+		if errors.Is(e, node.ErrDead) {
+			return st, true, nil
+		}
+		return st, false, e
+	}
+	if st.Settled {
+		o.Parked = ""
+		return st, false, nil
+	}
+	if st.AllBlocked && st.BusyIDs == first {
+		o.Wedged = truncStr(st.Sample, 1200)
+	}
+	return st, false, nil
+}
+
+// c20RunOpt: with snapshot=false the differential snapshot is left to the caller (requests that
+// name nothing are compared in windows, see the worker loop).
+func c20RunOpt(w *c20World, req c20Req, mayChange []string, snapshot bool) (o c20Obs) {
+	n := w.n
+	before := w.cur
 	dead := func(err error) bool {
 		if err != nil && errors.Is(err, node.ErrDead) {
 			o.Dead = true
@@ -397,30 +507,74 @@ func c20RunOpt(w *c20World, req c20Req, mayChange []string, snapshot bool) (o c2
 		}
 		return false
 	}
-	if err := n.Idle(); err != nil {
-		if dead(err) {
-			return
+	// panic reports printed since the last request was judged (by snapshot reads, set-up requests or
+	// goroutines that outlived the last settle) belong to no request of this table
+	if gap := n.StderrSince(w.scanned); gap != "" {
+		if pr := node.ScanPanics(gap); pr.Background {
+			o.StrayPanic = truncStr(pr.Excerpt, 1500)
 		}
-		o.NotIdle = err.Error()
 	}
-	var st struct {
-		Busy       int    `json:"busy"`
-		Goroutines int    `json:"goroutines"`
-		Settled    bool   `json:"settled"`
-		Sample     string `json:"sample"`
-		HeapInuse  int    `json:"heap_inuse_mb"`
-		HeapSys    int    `json:"heap_sys_mb"`
-	}
-	if err := n.Call("c20.settle", map[string]int{"wait_ms": 3000}, &st); err != nil {
-		if dead(err) {
-			return
+	mark := n.StderrMark()
+	defer func() { w.scanned = n.StderrMark() }()
+	g0 := w.goroutines
+	status, rb, notSent, err := c20Send(w, req, w.timeout)
+	if err != nil {
+		if !dead(err) {
+			o.Hang = true
+			o.Resp = err.Error()
+			o.Stderr = c20DeathReport(n)
 		}
-		must(err, "settle")
+		return
 	}
+	if notSent != "" {
+		o.NotSent = notSent
+		return
+	}
+	o.Status = status
+	o.Resp = truncStr(string(rb), 600)
+	st, isDead, err := c20Quiesce(w, &o)
+	if isDead {
+		dead(node.ErrDead)
+		return
+	}
+	must(err, "settle")
 	o.Goroutines = st.Goroutines
 	o.HeapInuseMB, o.HeapSysMB = st.HeapInuse, st.HeapSys
+	w.goroutines = st.Goroutines
 	if !st.Settled {
-		o.Parked = truncStr(st.Sample, 800)
+		// work goes on in the background: the goroutine count says nothing until it has settled again
+		w.goroutines, g0 = 0, 0
+	}
+	// goroutine growth: a request that leaves goroutines behind EVERY time it is sent leaks them
+	if g0 > 0 && st.Goroutines > g0 && o.Wedged == "" && o.NotIdle == "" {
+		atomic.AddInt64(&c20LeakProbes, 1)
+		counts := []int{g0, st.Goroutines}
+		leaking := true
+		for rep := 0; rep < 3 && leaking; rep++ {
+			if _, _, _, err := c20Send(w, req, w.timeout); err != nil {
+				if !dead(err) {
+					o.Hang = true
+					o.Resp = "repeated request: " + err.Error()
+				}
+				return
+			}
+			var o2 c20Obs
+			st2, isDead, err := c20Quiesce(w, &o2)
+			if isDead {
+				dead(node.ErrDead)
+				return
+			}
+			must(err, "settle")
+			leaking = st2.Settled && st2.Goroutines > counts[len(counts)-1]
+			counts = append(counts, st2.Goroutines)
+			w.goroutines = st2.Goroutines
+			if !st2.Settled {
+				w.goroutines = 0
+			}
+		}
+		if leaking {
+			o.Leak = fmt.Sprintf("goroutines after settle, request sent %d times: %v", len(counts)-1, counts)
+		}
 	}
 	// liveness probe
 	pr, err := n.HTTP("GET", "/api/node/"+w.root+"/kv/key/c1", nil)
@@ -435,13 +589,36 @@ func c20RunOpt(w *c20World, req c20Req, mayChange []string, snapshot bool) (o c2
 	if pr.Status != 200 {
 		o.Probe = fmt.Sprintf("GET kv/key/c1 at root answered %d %s", pr.Status, truncStr(string(pr.Bytes()), 300))
 	}
+	// panic reports on stderr: the recover handler of a request answers with 500 (or, when the answer
+	// had been started, leaves its report inside the body: status 598); any other report comes from a
+	// goroutine outside the request handler
+	scan := func(onlyBackground bool) {
+		if o.BgPanic != "" {
+			return
+		}
+		rep := node.ScanPanics(n.StderrSince(mark))
+		if rep.Background || (!onlyBackground && rep.Any && o.Status < 500) {
+			o.BgPanic = truncStr(rep.Excerpt, 1500)
+		}
+	}
+	scan(false)
 	if !snapshot {
 		o.Deferred = true
+		o.mark = mark
 		return
 	}
+	c20Compare(w, &o, before, mayChange, mark)
+	return
+}
+
+// c20Compare takes the snapshot after a request and compares it with the one before.
+func c20Compare(w *c20World, o *c20Obs, before *c20Snap, mayChange []string, mark int64) {
+	n := w.n
 	after, err := w.takeErr()
 	if err != nil {
-		if dead(err) {
+		if errors.Is(err, node.ErrDead) {
+			o.Dead = true
+			o.Stderr = c20DeathReport(n)
 			return
 		}
 		var ce *node.CallError
@@ -455,55 +632,61 @@ func c20RunOpt(w *c20World, req c20Req, mayChange []string, snapshot bool) (o c2
 	}
 	o.Unnamed, o.AnyChange, o.LaterErrs = c20Diff(before, after, mayChange)
 	w.cur = after
-	return
+	// (the reads of the snapshot have their own recover handlers: only background reports count)
+	if o.BgPanic == "" {
+		if rep := node.ScanPanics(n.StderrSince(mark)); rep.Background {
+			o.BgPanic = truncStr(rep.Excerpt, 1500)
+		}
+	}
+	w.scanned = n.StderrMark()
 }
 
-// c20RunCase is c20Run plus the follow-up of an accepted instance creation.
-func c20RunCase(w *c20World, ep *hEndpoint, req c20Req, mayChange []string) c20Obs {
-	o := c20Run(w, req, mayChange)
-	if ep.Name == "repo.instance" && o.Status >= 200 && o.Status < 300 && w.n.Alive() {
-		// an instance created from a hostile configuration must serve well-formed requests
-		o.LaterErrs = append(o.LaterErrs, c20FollowUp(w, fmt.Sprintf("h%d", w.ninst))...)
+// c20RunCase is c20Run plus the follow-ups owed to an accepted mutating request (cs == nil: the
+// well-formed request of the row).
+func (d *c20Driver) runCase(w *c20World, ep *hEndpoint, cs *hCase, req c20Req, mayChange []string, follow bool) c20Obs {
+	return d.runCaseOpt(w, ep, cs, req, mayChange, follow, false)
+}
+
+// runCaseOpt: with lazy=true the comparison of a request that was answered 4xx is left to the caller
+// (refusals are what the table expects of such a case: they are compared in windows); any other
+// answer is compared at once.
+func (d *c20Driver) runCaseOpt(w *c20World, ep *hEndpoint, cs *hCase, req c20Req, mayChange []string, follow, lazy bool) c20Obs {
+	var o c20Obs
+	if lazy {
+		before := w.cur
+		o = c20RunOpt(w, req, mayChange, false)
+		if o.Deferred && !(o.Status >= 400 && o.Status < 500) {
+			o.Deferred = false
+			c20Compare(w, &o, before, mayChange, o.mark)
+		}
+	} else {
+		o = c20Run(w, req, mayChange)
+	}
+	mutating := ep.Flags.has("mut")
+	if cs != nil {
+		mutating = cs.Mutating
+	}
+	if follow && mutating && o.Status >= 200 && o.Status < 300 && !o.Dead && !o.Hang && w.n.Alive() && len(ep.FollowUps) > 0 {
+		tf := time.Now()
+		c20FollowUps(w, ep, d.follow, &o)
+		atomic.AddInt64(&c20FollowNanos, int64(time.Since(tf)))
+		atomic.AddInt64(&d.followed, 1)
+		atomic.AddInt64(&d.followReqs, int64(o.FollowSent))
 	}
 	return o
 }
 
-// c20FollowUp sends well-formed requests to a freshly created labelmap instance and returns
-// those answered with a server error.
-func c20FollowUp(w *c20World, name string) []string {
-	var bad []string
-	base := "/api/node/" + w.a + "/" + name
-	try := func(method, url string, body []byte) {
-		rd := map[string]string{"method": method, "url": url}
-		if len(body) > 0 {
-			rd["body"] = b64(body)
-		}
-		var r struct {
-			Status int    `json:"status"`
-			Body   string `json:"body"`
-		}
-		if err := w.n.Call("c20.http", rd, &r); err != nil {
-			bad = append(bad, fmt.Sprintf("%s %s: %v", method, url, err))
-			return
-		}
-		if r.Status >= 500 {
-			bad = append(bad, fmt.Sprintf("%s %s: %d %s", method, url, r.Status, truncStr(string(unb64(r.Body)), 300)))
-		}
+// wantFollow: both tiers follow up every accepted request of the geometry cases and of the rows whose
+// effect is unversioned; the thorough tier also every accepted request of the rows of the growth round
+// and the first two concrete requests of every other case; of the rest a seeded third is followed up.
+func (d *c20Driver) wantFollow(ep *hEndpoint, cs *hCase, seed int64, variant int) bool {
+	if cs == nil || cs.Part == "geom" || ep.Flags.has("persist") || ep.Flags.has("g2") && d.c.thorough() {
+		return true
 	}
-	try("GET", base+"/info", nil)
-	if len(bad) > 0 || !w.n.Alive() {
-		return bad
+	if d.c.thorough() && variant < 2 {
+		return true
 	}
-	try("POST", base+"/raw/0_1_2/32_32_32/0_0_0", c20Volume(32, 32, 32, func(x, y, z int) uint64 { return uint64(1 + x/16) }))
-	if w.n.Alive() {
-		w.n.Idle()
-		try("GET", base+"/raw/0_1_2/32_32_32/0_0_0", nil)
-	}
-	if w.n.Alive() {
-		try("GET", base+"/label/1_1_1", nil)
-		try("GET", base+"/sparsevol/1", nil)
-	}
-	return bad
+	return uint64(seed)%3 == 0
 }
 
 // ---- findings ----------------------------------------------------------------------------
@@ -550,6 +733,10 @@ type c20Driver struct {
 	statusHist map[string]int
 	wfRefused  []string
 	wfRequests int64
+	follow     map[string]func(w *c20World) c20Req
+	followed, followReqs int64
+	sampledOut int
+	poisoned   map[string]bool // world kinds whose set-up requests already departed
 }
 
 func b64(b []byte) string { return base64.StdEncoding.EncodeToString(b) }
@@ -618,7 +805,7 @@ func (d *c20Driver) handle(ep *hEndpoint, impl *c20EP, cs *hCase, in c20Inst, se
 	d.mu.Unlock()
 
 	// reproduce on a fresh node
-	w2 := newC20World(d.c, d.cfg)
+	w2 := newC20WorldKind(d.c, d.cfg, ep.world())
 	w2.timeout = 90 * time.Second
 	in2, ok := c20Instantiate(ep, impl, cs, w2, rand.New(rand.NewSource(seed)), variant)
 	var o2 c20Obs
@@ -627,7 +814,7 @@ func (d *c20Driver) handle(ep *hEndpoint, impl *c20EP, cs *hCase, in c20Inst, se
 		if cs != nil {
 			mc = cs.MayChange
 		}
-		o2 = c20RunCase(w2, ep, in2.Req, mc)
+		o2 = d.runCase(w2, ep, cs, in2.Req, mc, true)
 	}
 	d.c.DropNode(w2.n)
 	k2 := o2.kinds(cs)
@@ -683,7 +870,8 @@ func checkC20(c *Ctx) int {
 		}
 	}
 	d := &c20Driver{c: c, run: run, table: table, impls: impls, groups: map[string]*c20Replay{}, byKind: map[string]int{}, statusHist: map[string]int{},
-		cfg: node.Config{Env: []string{"VERIF_RLIMIT_AS_MB=8192"}}}
+		cfg: node.Config{Env: []string{"VERIF_RLIMIT_AS_MB=8192"}}, follow: c20FollowImpls(), poisoned: map[string]bool{}}
+	c20CheckFollowUps(table, d.follow)
 
 	// work items: chunks of cases of one endpoint
 	type item struct {
@@ -706,6 +894,7 @@ func checkC20(c *Ctx) int {
 		if table.Endpoints[e-1].Flags.has("rpc") {
 			continue
 		}
+		cs = d.sampleCases(&table.Endpoints[e-1], cs)
 		for off := 0; off < len(cs); off += chunk {
 			end := off + chunk
 			if end > len(cs) {
@@ -714,21 +903,50 @@ func checkC20(c *Ctx) int {
 			items = append(items, item{e, cs[off:end]})
 		}
 	}
+	// rows of the same world kind are neighbours in the item list, so that a worker seldom changes worlds
+	sort.SliceStable(items, func(i, j int) bool {
+		return table.Endpoints[items[i].e-1].world() < table.Endpoints[items[j].e-1].world()
+	})
 	variants := c.pick(1, 9)
 	urlVariants := c.pick(3, 8)
 	workers := 16
 	worlds := make([]*c20World, workers)
 	structureChecked := make([]int32, len(table.Endpoints)+1)
 	var distinct sync.Map
-	getWorld := func(wi int) *c20World {
+	getWorld := func(wi int, kind string) *c20World {
 		w := worlds[wi]
-		if w != nil && (!w.n.Alive() || w.nbranch > 120) {
+		if w != nil && (!w.n.Alive() || w.nbranch > 120 || w.kind != kind) {
 			c.DropNode(w.n)
 			w = nil
 		}
 		if w == nil {
-			w = newC20World(c, d.cfg)
+			w = newC20WorldKind(c, d.cfg, kind)
 			worlds[wi] = w
+		}
+		if !w.buildScanned {
+			// a panic report printed by a background goroutine while the world was built belongs to the
+			// well-formed set-up requests, not to a row of the table
+			w.buildScanned = true
+			if rep := node.ScanPanics(w.n.StderrSince(0)); rep.Background || w.buildNotIdle != "" {
+				key := "wellformed|world-build|" + w.kind
+				d.mu.Lock()
+				_, seen := d.groups[key]
+				if !seen {
+					d.groups[key] = &c20Replay{}
+					d.byKind["background-panic"]++
+				}
+				d.mu.Unlock()
+				if !seen {
+					run.Violation("c20wf", map[string]interface{}{"property": "C20", "table": "well-formed set-up requests of the " + w.kind + " world",
+						"background_panic": truncStr(rep.Excerpt, 2500), "not_idle": w.buildNotIdle})
+				}
+				// nothing can be attributed to a single request in a world whose set-up already went wrong:
+				// the rows of this world are not run
+				d.mu.Lock()
+				d.poisoned[w.kind] = true
+				d.mu.Unlock()
+			}
+			w.scanned = w.n.StderrMark()
 		}
 		if len(w.baselineErrs) > 0 {
 			errs := w.baselineErrs
@@ -761,28 +979,51 @@ func checkC20(c *Ctx) int {
 		it := items[ii]
 		ep := &table.Endpoints[it.e-1]
 		impl := impls[ep.Name]
-		w := getWorld(wi)
+		isPoisoned := func() bool {
+			d.mu.Lock()
+			defer d.mu.Unlock()
+			return d.poisoned[ep.world()]
+		}
+		if isPoisoned() {
+			return
+		}
+		w := getWorld(wi, ep.world())
+		if isPoisoned() {
+			return
+		}
 		seedBase := c.Seed*1000003 + int64(ii)*7919
 		if atomic.CompareAndSwapInt32(&structureChecked[it.e], 0, 1) {
 			c20CheckStructure(ep, impl, w, rand.New(rand.NewSource(seedBase)))
 		}
+		var closeWindow func()
 		after := func(o c20Obs) {
 			// start the next request from a clean target when anything moved or went wrong
-			if !w.n.Alive() || o.Hang {
+			if !w.n.Alive() || o.Hang || o.Wedged != "" || o.NotIdle != "" {
 				c.DropNode(w.n)
 				worlds[wi] = nil
-				w = getWorld(wi)
+				w = getWorld(wi, ep.world())
 				return
 			}
-			if o.AnyChange || len(o.LaterErrs) > 0 || o.NotSent == "" && o.Status >= 500 {
+			// an accepted request of a row whose effect is unversioned (instance metadata, server
+			// settings) would be inherited by every later request: continue on a fresh world
+			if ep.Flags.has("persist") && o.NotSent == "" && (o.Status >= 200 && o.Status < 300 || o.Status >= 500 || o.AnyChange) {
+				c.DropNode(w.n)
+				worlds[wi] = nil
+				w = getWorld(wi, ep.world())
+				return
+			}
+			if o.AnyChange || o.FollowSent > 0 || len(o.LaterErrs) > 0 || o.NotSent == "" && o.Status >= 500 {
+				if o.Deferred && closeWindow != nil {
+					closeWindow() // (this request and the pending ones are compared before the target is left)
+				}
 				w.retarget()
 			}
 		}
-		// requests that name nothing (read-only endpoints) are compared with the snapshot in windows
-		// of up to 6 requests; a difference is attributed by sending the window's requests again,
+		// requests that name nothing (read-only endpoints) and refused requests are compared with the snapshot
+		// in windows of up to 8 requests; a difference is attributed by sending the window's requests again,
 		// one by one with a snapshot each, to a fresh node
 		var window []c20Pending
-		closeWindow := func() {
+		closeWindow = func() {
 			pend := window
 			window = nil
 			if len(pend) == 0 || !w.n.Alive() {
@@ -793,19 +1034,28 @@ func checkC20(c *Ctx) int {
 			if err != nil {
 				return // a dead node is noticed by the next request
 			}
-			unnamed, _, later := c20Diff(before, aft, nil)
+			var named []string
+			for _, p := range pend {
+				named = append(named, p.cs.MayChange...)
+			}
+			unnamed, anyChange, later := c20Diff(before, aft, named)
 			w.cur = aft
 			if len(unnamed) == 0 && len(later) == 0 {
+				if anyChange {
+					// a refused request left part of its effect in the scopes it names: the next request
+					// starts from a clean target again
+					w.retarget()
+				}
 				return
 			}
-			w2 := newC20World(c, d.cfg)
+			w2 := newC20WorldKind(c, d.cfg, ep.world())
 			found := false
 			for _, p := range pend {
 				in2, ok := c20Instantiate(ep, impl, p.cs, w2, rand.New(rand.NewSource(p.seed)), p.variant)
 				if !ok {
 					continue
 				}
-				o2 := c20RunCase(w2, ep, in2.Req, p.cs.MayChange)
+				o2 := d.runCase(w2, ep, p.cs, in2.Req, p.cs.MayChange, true)
 				if len(o2.kinds(p.cs)) > 0 {
 					found = true
 					d.handle(ep, impl, p.cs, in2, p.seed, p.variant, o2)
@@ -826,9 +1076,9 @@ func checkC20(c *Ctx) int {
 			w.retarget()
 		}
 		// positive control: the valid request of this endpoint is accepted
-		{
+		if !ep.Flags.has("noctl") {
 			in, _ := c20Instantiate(ep, impl, nil, w, rand.New(rand.NewSource(seedBase)), 1)
-			o := c20RunCase(w, ep, in.Req, ep.MayChange)
+			o := d.runCase(w, ep, nil, in.Req, ep.MayChange, true)
 			atomic.AddInt64(&d.sent, 1)
 			if ks := o.kinds(nil); len(ks) > 0 {
 				d.handle(ep, impl, nil, in, seedBase, 1, o)
@@ -842,6 +1092,15 @@ func checkC20(c *Ctx) int {
 			if cs.Part == "url" && nv < urlVariants {
 				nv = urlVariants // hostile spellings of URL parameters are few: walk through more of them
 			}
+			if c.thorough() {
+				// the rows and cases of the growth round get fewer concrete requests per case than the byte-level
+				// cases of the first round (their classes have few distinct instantiations)
+				if cs.Part == "req" {
+					nv = 2
+				} else if ep.Flags.has("g2") || cs.Part == "geom" {
+					nv = 4
+				}
+			}
 			for v := 0; v < nv; v++ {
 				seed := seedBase + int64(ci)*131 + int64(v)*17 + 1
 				in, ok := c20Instantiate(ep, impl, cs, w, rand.New(rand.NewSource(seed)), v)
@@ -849,12 +1108,22 @@ func checkC20(c *Ctx) int {
 					atomic.AddInt64(&d.skipped, 1)
 					continue
 				}
-				lazy := !ep.Flags.has("mut") && ep.Name != "repo.instance"
+				lazy := !cs.Mutating && !ep.Flags.has("mut") && ep.Name != "repo.instance"
+				// a case of a mutating row is compared in windows as long as it is refused
+				lazyRefusal := !lazy && !ep.Flags.has("persist") && !ep.Flags.has("dag")
 				var o c20Obs
 				if lazy {
 					o = c20RunOpt(w, in.Req, cs.MayChange, false)
 				} else {
-					o = c20RunCase(w, ep, in.Req, cs.MayChange)
+					if !lazyRefusal {
+						closeWindow() // pending refusals are judged before a request that gets a comparison of its own
+					}
+					o = d.runCaseOpt(w, ep, cs, in.Req, cs.MayChange, d.wantFollow(ep, cs, seed, v), lazyRefusal)
+					if lazyRefusal && !o.Deferred {
+						// the request was not refused and has been compared at once: that comparison covers the
+						// refusals that were pending (anything they changed outside its names is reported with it)
+						window = nil
+					}
 				}
 				if o.NotSent != "" {
 					atomic.AddInt64(&d.notSent, 1)
@@ -879,17 +1148,21 @@ func checkC20(c *Ctx) int {
 					run.Sample(d.replayOf(ep, cs, in, seed, o, nil))
 				}
 				after(o)
-				if len(window) >= 6 || (o.Deferred && len(o.kinds(cs)) > 0) {
+				if len(window) >= 8 || (o.Deferred && len(o.kinds(cs)) > 0) {
 					closeWindow()
 				}
 			}
 		}
 		closeWindow()
 	})
-	if only == "" || only == "wf" {
-		d.wellFormed(table.AnnCases, table.NJCases)
+	if d.poisoned["main"] {
+		fmt.Println("C20: the set-up requests of the first world already departed: the well-formed tables and the RPC rows (same world) are not run")
+	} else {
+		if only == "" || only == "wf" {
+			d.wellFormed(table.AnnCases, table.NJCases)
+		}
+		c20RPC(c, run, d, table) // the rows of the RPC command path (c20_rpc.go)
 	}
-	c20RPC(c, run, d, table) // the rows of the RPC command path (c20_rpc.go)
 	// summary
 	var groups []string
 	more := 0
@@ -903,11 +1176,17 @@ func checkC20(c *Ctx) int {
 	run.Set("traces_validated_against_impl", d.sent)
 	run.Set("evaluations", d.sent+d.wfRequests)
 	run.Set("hostile_requests", d.sent)
+	run.Set("accepted_mutations_followed_up", d.followed)
+	run.Set("followup_requests", d.followReqs)
+	run.Set("followup_seconds_total", float64(atomic.LoadInt64(&c20FollowNanos))/1e9)
+	run.Set("goroutine_growth_probes", atomic.LoadInt64(&c20LeakProbes))
 	run.Set("wellformed_requests", d.wfRequests)
 	run.Set("wellformed_tables", map[string]int{"annotation_tag_cases": len(table.AnnCases), "neuronjson_query_cases": len(table.NJCases)})
 	run.Set("documented_queries_refused", d.wfRefused)
 	run.Set("table_endpoints", len(table.Endpoints))
+	run.Set("worlds_not_run_after_a_failed_setup", sortedKeys(d.poisoned))
 	run.Set("table_cases", len(table.Cases))
+	run.Set("table_cases_not_in_this_tiers_sample", d.sampledOut)
 	run.Set("cases_inapplicable", d.skipped)
 	run.Set("requests_not_transmittable", d.notSent)
 	run.Set("answered_4xx", d.rejected)
@@ -921,11 +1200,14 @@ func checkC20(c *Ctx) int {
 	run.Set("snapshot_seconds_total", float64(atomic.LoadInt64(&c20SnapNanos))/1e9)
 	run.Set("worlds_built", atomic.LoadInt64(&c20WorldCount))
 	run.Set("world_seconds_total", float64(atomic.LoadInt64(&c20WorldNanos))/1e9)
-	run.Set("rule", "TLC model-checks the Gate protocol of specs/Hostile.tla over every (endpoint, mutation class, structural position) case and prints the table with the oracle (must be answered 4xx / may be accepted); the harness checks that its payload builders have exactly the table's field structure, expands each case into seeded concrete requests (bit positions, cut offsets, extreme values, hostile spellings are sampled, not enumerated), sends them to the real server and requires: status class allowed by the table, never 5xx, process alive, idle reached, liveness probe answered, later reads not 5xx, and every snapshot entry outside the scopes the request names unchanged; a suspected departure counts only when it is seen again for the same request on a fresh node; distinct_nontrivial = distinct table cases whose concrete request differed from the valid one and reached the server")
+	run.Set("rule", "TLC model-checks the Gate protocol of specs/Hostile.tla (Send / Settle / Follow / Probe) over every (endpoint, mutation class, structural position) case and prints the table with the oracle (must be answered 4xx / may be accepted), the scopes each case names, whether it is a mutating request and the follow-up requests owed to it; the harness checks that its payload builders have exactly the table's field structure and that it implements exactly the table's follow-ups, expands each case into seeded concrete requests (bit positions, cut offsets, extreme values, hostile spellings, block geometries, verbs are sampled or walked through, not enumerated), sends them to the real server and requires: status class allowed by the table, never 5xx, process alive, idle reached, no request work blocked on a lock long after the answer, no goroutines left behind by every repetition of the request, no panic report of a goroutine outside the request handler on stderr, liveness probe answered, later reads not 5xx, every snapshot entry outside the scopes the request names unchanged, and - after an accepted mutating request - every follow-up of the table (reads of the touched region through every format, further mutations of it) answered without a server error; refused requests are compared with the snapshot in windows and re-run one by one on a fresh node when a window differs; a suspected departure counts only when it is seen again for the same request on a fresh node; the quick tier runs a seeded sample of the request-level cases and of the cases of the rows added by the growth round (table_cases_not_in_this_tiers_sample), the thorough tier every case; distinct_nontrivial = distinct table cases whose concrete request differed from the valid one and reached the server")
 	run.Assume = []string{
 		"the server-under-test runs with an 8 GB address-space limit (about 3.5 GB above what it maps at rest) (a request that makes it allocate beyond that kills the process and is counted as a crash)",
 		"requests are delivered through server.ServeSingleHTTP (the full middleware chain of the web server, no TCP layer)",
 		"what a request names is taken per instance group (Hostile.tla MayChange): the target part of the instance at the target version and instance-wide settings; everything else must read back as before",
+		"three harness worlds (first-round datatypes; multi-scale labelmap + uint16blk + rgba8blk; labelblk/labelvol/labelarray/labelsz/tarsupervoxels/imagetile), each one repository with data at four versions",
+		"request work that is still running (not blocked) 3 s after the answer is left to finish in the background and is not judged; work blocked on a lock or wait group for 18 s is a wedge",
+		"a panic report on stderr is attributed to the request in flight; a report printed between two requests (snapshot reads, set-up) is reported as stray and, like every departure, must reproduce on a fresh node",
 	}
 	fmt.Printf("C20: %d table cases on %d endpoints, %d requests sent (%d inapplicable, %d not transmittable), 4xx=%d 2xx=%d; violation groups=%d; %.1fs\n",
 		len(table.Cases), len(table.Endpoints), d.sent, d.skipped, d.notSent, d.rejected, d.accepted, len(d.groups), since(t0))
